@@ -125,7 +125,7 @@ def run(tier, seed, replay):
                     f"{len(files)} files x 4 respellings + 2 splice insertions (random subsets of the occurrences)",
                     nat["cases"], nat["violations"], nontrivial=nat["cases"], samples=[f[0] for f in files[:3]],
                     time_s=time.time() - t0)
-    explained = any(i.status == "failed" for i in chk.items)
+    explained = chk.has_unlisted_failure()
     if nat["violations"] and not explained:
         v = nat["violations"][0]
         chk.report_violation("C12.bounded.programs", {"property": "C12", "obligation": "C12.bounded.programs",
